@@ -404,3 +404,29 @@ Proof.
   pose proof (convert_total r) as Hc.
   destruct (convert r); try exact I; contradiction.
 Qed.
+
+(* ---- non-vacuity of the hypotheses of parse_encode and convert_faithful ---- *)
+Definition ex_req : request :=
+  [mkSeries [mkLabel NAME [99;112;117]; mkLabel [104] [97]]
+            [mkSample 1000%Z 4605831338911806259; mkSample (-5)%Z 4890909195324358656];
+   mkSeries [mkLabel [122] [98]; mkLabel NAME [109]; mkLabel [122] [99]]
+            [mkSample 7%Z 13835058055282163712]].
+
+Example parse_encode_nonvacuous :
+  wf_request ex_req /\ N.of_nat (length (enc_request ex_req)) < I63 /\
+  parse_write_request (current Debug) (enc_request ex_req) = Done ex_req.
+Proof.
+  split; [|split; [vm_compute; reflexivity|vm_compute; reflexivity]].
+  unfold ex_req, wf_request.
+  repeat constructor; try apply ascii_wf; repeat constructor; vm_compute; try reflexivity; try discriminate.
+Qed.
+
+(* two series with different label sets, a duplicated label (last value wins), a
+   metric name that is not the first label, the value 2^63 (kept as f64) and -2.0
+   (stored as the integer -2) *)
+Example convert_faithful_nonvacuous :
+  convert ex_req = Done (mkBatch [[104]; [122]]
+    [mkRow 1000000000%Z [99;112;117] (RF64 4605831338911806259) [Some [97]; None];
+     mkRow (-5000000)%Z [99;112;117] (RF64 4890909195324358656) [Some [97]; None];
+     mkRow 7000000%Z [109] (RI64 (-2)%Z) [None; Some [99]]]).
+Proof. vm_compute. reflexivity. Qed.
